@@ -72,6 +72,21 @@ CLAIMED = {
          "LL side only so far (LR runs are added with C03); limits that are hit after a syntax error are not tracked.",
          "TLC trace validation with a reference-run comparison (LLParser.tla)",
          "DESIGN.md §6 C20"),
+ "C10": ("model_checking",
+         "TLC enumerates the grammar universe (all grammars whose start symbol has a production) and guided random walks; the harness "
+         "runs parol::left_factor (20 s deadline) on each, also with non-terminals renamed to the names left factoring generates "
+         "(<X>Suffix, <X>Suffix0, ..), and records input/output; Xform.tla (TLC trace validation) checks equal bounded language, every "
+         "original non-terminal keeps its language, and no two non-empty alternatives of a non-terminal share their first symbol.",
+         "language equality up to length 4; symbol equality = name equality (vector grammars carry no attributes).",
+         "TLC-enumerated inputs; TLC validates each recorded input/output pair of the real transformation against the TLA+ language definition",
+         "DESIGN.md §6 C10"),
+ "C12": ("model_checking",
+         "Every well-formed grammar of the universe (left/right/start-recursive ones included, plus renamings to <Start>0/<Start>1) goes "
+         "through check_and_transform_grammar(.., LALR1); Xform.tla checks on the recorded pair: same bounded language, start symbol has "
+         "exactly one production and occurs on no right-hand side, original non-terminals keep their languages.",
+         "language equality up to length 4.",
+         "TLC-enumerated inputs; TLC trace validation of input/output pairs (Xform.tla)",
+         "DESIGN.md §6 C12"),
 }
 
 NOT_YET = "check not built yet in this round (see DESIGN.md §11.2 build order); will be claimed once its quick check passes on the unchanged tree"
